@@ -36,7 +36,7 @@ fn c19_5a_add_f64() {
     kani::cover!(d == 0.0 && d.is_sign_negative());
 }
 
-// @ob id=C19.5g strength=complete tier=thorough timeout=1800 fn=clock/time.rs::<ClockTime as Add<f64>>::add
+// @ob id=C19.5g strength=complete tier=quick fn=clock/time.rs::<ClockTime as Add<f64>>::add
 // @req as C19.5a with d >= 0
 // @ens ticks increase by trunc(fraction + d) exactly and fraction' == fract(fraction + d): the total moves by d up to the single rounding of fraction + d
 #[kani::proof]
